@@ -8,7 +8,8 @@ plain default, `PortNamespace.pre_process`, `.validate`, `.validate_ports`, `.va
 Conventions
 * A value is an atom with a type tag (`isinstance` is equality of tags; the harness uses 0 = `int`, 1 = `float`,
   2 = `dict`) or a mapping, an association list in insertion order with a tag saying whether it is an immutable
-  `AttributesFrozendict` (`frozen = true`) or a plain `dict`.  `atom 0 0` is Python's `0`, the only falsy atom.
+  `AttributesFrozendict` (`frozen = true`) or a plain `dict`.  `atom 0 0` is Python's `0`; atoms of type 3 stand for Python's `None` (an instance of no declared type);
+  these are the falsy atoms.
 * Python dictionaries have unique keys.  `lookup` reads the first entry of a key, `setKey` writes it (appending a new
   key at the end, as `d[k] = v` does), `eraseKey` (`dict.pop`) removes every entry of the key.
 * User code is an oracle: `vd n v = true` means "validator `n` returns an error message for `v`"; callable defaults
@@ -59,7 +60,7 @@ deriving instance DecidableEq for Except
 
 /-- Python truthiness, negated: `not value` -/
 def V.falsy : V → Bool
-  | .atom ty id => ty == 0 && id == 0
+  | .atom ty id => (ty == 0 && id == 0) || ty == 3
   | .dict _ items => items.isEmpty
 
 /-- does the value mention atom `n` anywhere (the validators used by the driver and the harness) -/
